@@ -284,7 +284,7 @@ func checkC18(c Case) *Failure {
 
 func runC18(r *Run) {
 	r.Level = "model_checking"
-	r.Rule("for each of the five Go datetime types every value of a grid (9 dates incl. years 1 and 9999 and leap day x 4 clock times x 9 nanosecond patterns x whole-minute offsets -12:00..+14:00 in 15/45-minute steps plus +-1, +-59, +-30, +05:30, -03:30 minutes): String() equals the reference ISO-8601 printer, ParseTime(String(v)) equal and same type, json round trip equal, .string() in a path prints the same text; UnmarshalJSON (direct and through encoding/json) on every byte string of length <= 3 over a 20-byte alphabet, every prefix and every single-byte edit of one valid encoding per type, and every JSON token kind: never a panic; date -> timestamptz -> date and timestamp -> timestamptz -> timestamp identities for every grid value x 8 context zones where the local time exists; non-trivial = every grid value / input (all distinct)")
+	r.Rule("for each of the five Go datetime types every value of a grid (9 dates incl. years 1 and 9999 and leap day x 4 clock times x 9 nanosecond patterns x whole-minute offsets -12:00..+14:00 in 15/45-minute steps plus +-1, +-59, +-30, +05:30, -03:30 minutes): String() equals the reference ISO-8601 printer, ParseTime(String(v)) equal and same type, json round trip equal, .string() in a path prints the same text; UnmarshalJSON (direct and through encoding/json) on every byte string of length <= 3 over a 20-byte alphabet, every prefix and every single-byte edit of one valid encoding per type, every JSON token kind, and every valid encoding padded with 0..9 leading and trailing bytes of each JSON white-space character: never a panic; date -> timestamptz -> date and timestamp -> timestamptz -> timestamp identities for every grid value x 8 context zones where the local time exists; non-trivial = every grid value / input (all distinct)")
 	grid := c18Grid(r.Thorough())
 	r.Bound("grid_values", len(grid))
 	r.ParFor(len(grid), func(i int) {
@@ -353,6 +353,18 @@ func runC18(r *Run) {
 	}
 	inputs = append(inputs, `null`, `true`, `false`, `1`, `1.5`, `-1`, `1e400`, `""`, `"a"`, `"ab"`, `"abc"`, `[]`, `{}`, `[1]`, `{"a":1}`, `"A"`, ` "2015-08-02" `, `"2015-08-02"x`, ``, ` `, `"`, `""""`,
 		strings.Repeat(`"`, 9), `"+"`, `"-"`, `"123456789"`, `"12345678"`, `"+12345678"`, `"-1234"`)
+	// JSON white space around a quoted value, every (leading, trailing) padding of 0..9 bytes of each kind
+	for _, body := range append(append([]string{}, valid...), `""`, `"a"`, `"12:34"`, `"12:34:56"`, `"+05:30"`, `null`) {
+		for _, ws := range []string{" ", "\t", "\n", "\r"} {
+			for lead := 0; lead <= 9; lead++ {
+				for trail := 0; trail <= 9; trail++ {
+					if lead+trail > 0 {
+						inputs = append(inputs, strings.Repeat(ws, lead)+body+strings.Repeat(ws, trail))
+					}
+				}
+			}
+		}
+	}
 	r.Bound("unmarshal_inputs", len(inputs))
 	r.ParFor(len(inputs), func(i int) {
 		c := Case{Rule: "unmarshal", Extra: map[string]string{"data": inputs[i]}}
